@@ -161,10 +161,11 @@ Proof.
 Qed.
 Print Assumptions C11_global_chains.
 
-(* ... and every tree of depth <= 3 with <= 2 children per zone, 1-2 endpoints per zone and at most 12 directly
-   related endpoint pairs (the bound that keeps the kernel evaluation at a few minutes) *)
+(* ... and every tree of depth <= 3 with <= 2 children per zone, 1-2 endpoints per zone and at most 10 directly
+   related endpoint pairs (the bound that keeps the kernel evaluation - and its re-evaluation by coqchk - at minutes;
+   C11_global_*_unbounded below has no bound at all) *)
 Theorem C11_global_trees : forall c links s lz nord,
-  In c rt_global_trees -> rt_pairs c <= 12 -> In links (rt_powerset (rt_related_pairs c)) ->
+  In c rt_global_trees -> rt_pairs c <= 10 -> In links (rt_powerset (rt_related_pairs c)) ->
   In s (flat_map rt_zeps c) -> rt_zone_of c s = Some lz -> rt_nord_ok c nord ->
   forall k st', rt_sched_run rt_msg (rt_effect c links (rt_gtarget c) nord) (rt_init c links (rt_gtarget c) nord s lz) k st' ->
     k < rt_fuel c /\
@@ -265,7 +266,7 @@ Proof. exact rt_tree_complete. Qed.
 Print Assumptions C11_global_complete_unbounded.
 
 (* non-vacuity: the full binary tree of depth 3 with two endpoints everywhere plus a global zone - 31 directly related
-   endpoint pairs, 2^31 link sets, the member of rt_global_trees that the bounded sweep (<= 12 pairs) cannot reach -
+   endpoint pairs, 2^31 link sets, the member of rt_global_trees that the bounded sweep (<= 10 pairs) cannot reach -
    satisfies rt_tree_wf and, fully connected, the premise; the exploration evaluated on it (originator = non-master
    endpoint of the root zone: all 14 endpoints; originator in a leaf zone: its two endpoints) agrees *)
 Example C11_global_unbounded_nonvacuous :
